@@ -129,6 +129,8 @@ class Exec:
         self.stored = stored
         self.listeners_fn = listeners_fn
 
+    twin = None     # per-op results of the synchronous twin (exact list order)
+
     def run(self, ch, ops, activate_first):
         vl = VL()
         vl.reset(ch)
@@ -144,9 +146,14 @@ class Exec:
                     msg = p.activate() or self._left("activate")
                     steps += 1
                 if msg is None:
-                    for op in ops:
+                    for oi, op in enumerate(ops):
                         msg = p.send(op[1], op[2], tag=op[3]) or self._left(f"send {op[1]}")
                         steps += 1
+                        if msg is None and self.twin is not None and p.last[1].kind == "ok" \
+                                and p.last[1].value != self.twin[oi]:
+                            msg = (f"send {op[1]}: result {p.last[1].value!r} differs from the "
+                                   f"synchronous twin's {self.twin[oi]!r} (same callbacks, other "
+                                   f"order)")
                         if msg:
                             break
             except Deadlock as e:
@@ -169,9 +176,24 @@ class Exec:
         return None
 
 
+def sync_twin_results(twin_built, ops, plan):
+    """Runs the scenario on the all-plain twin machine and returns each send's result."""
+    p = Pair(twin_built, Cfg("sync", True, False, "direct"), plan=plan)
+    out = []
+    if p.construct():
+        return None
+    for op in ops:
+        if p.send(op[1], op[2], tag=op[3]):
+            return None
+        out.append(p.last[1].value if p.last[1].kind == "ok" else None)
+    return out
+
+
 def explore_scenario(res, sc_json, built, driver, ops, plan, bound, allow=False,
-                     activate_first=False, max_execs=3000, engine="async", listeners_fn=None):
+                     activate_first=False, max_execs=3000, engine="async", listeners_fn=None,
+                     twin=None):
     ex = Exec(built, driver, plan=plan, allow=allow, engine=engine, listeners_fn=listeners_fn)
+    ex.twin = twin
     state = {"msg": None, "choices": None, "steps": 0, "outcomes": set()}
 
     def run_fn(ch):
@@ -436,13 +458,18 @@ def run_one(res, sc, ms, tier, bound, only_driver=None, only=None):
             (x, ph, prov, sends) = rule
             rules = {((prov, GENERIC[ph]), x): (tuple(sends), 1)}
         ops = [("send", ev, {}, f"e{i}") for i, ev in enumerate(hist)]
+        twin_built = cached_build(("ring-twin",), lambda: ring3(asyn=False, provs=("sm", "L1")))
+        try:
+            twin = sync_twin_results(twin_built, ops, Plan(rules=rules))
+        except Ambiguous:
+            twin = None
         for driver in DRIVERS:
             if only_driver and driver != only_driver:
                 continue
             scj = {"family": "ring", "mask": mask, "rule": list(rule) if rule else None,
                    "history": list(hist), "tier": tier, "fault": None}
             explore_scenario(res, scj, built, driver, ops, Plan(rules=rules), bound,
-                             max_execs=1500 if tier == "quick" else 40000)
+                             max_execs=1500 if tier == "quick" else 40000, twin=twin)
         # single faults at every position of the fault-free run (positions from the reference)
         if mask == "all" and (rule is None or tier == "thorough"):
             from .c04 import positions
